@@ -226,7 +226,7 @@ def run(ctx):
     ctx.extra["configs"] = per_cfg
 
     # ---- code -> spec: seeded random worlds
-    n = 400 if thorough else 36
+    n = 400 if thorough else 30
     rtrace = os.path.join(ctx.work, "random.ndjson")
     resf = os.path.join(ctx.work, "random.json")
     ctx.run([binp, "random", "-n", str(n), "-out", rtrace, "-res", resf], timeout=2400)
